@@ -379,7 +379,10 @@ class Check:
             'distribution': self.dist,
             'known_findings_hit': self.known_hits,
         }
-        cov.update(self.extra)
+        extra = dict(self.extra)
+        if 'exhaustive' in extra and not isinstance(extra['exhaustive'], bool):
+            extra['exhaustive_scope'] = extra.pop('exhaustive')      # the schema reserves `exhaustive` for a boolean
+        cov.update(extra)
         ev = {
             'property_id': self.prop, 'tier': self.tier, 'seed': self.seed, 'level': 'proof',
             'coverage': cov, 'assumptions': self.assumptions, 'wall_s': round(time.time() - self.t0, 2),
